@@ -202,3 +202,29 @@ End Limit.
 
 (* g.SetLimit(GOMAXPROCS + k), k read from the source (None = no SetLimit call) *)
 Definition install_limit (extra : option nat) (jobs : nat) : option nat := option_map (fun k => jobs + k) extra.
+
+(* ---- 4. wave 3: things a build must not inherit from what happened before ---------- *)
+(* 4a. a file written from offset 0 over whatever the path held: the flags of the
+   open call (read from the source) decide whether earlier content survives.
+   os.Create = O_RDWR|O_CREATE|O_TRUNC; O_EXCL (os.CreateTemp) = the file is new. *)
+Definition opens_fresh (flags : list string) : bool := mem "O_TRUNC" flags || mem "O_EXCL" flags.
+Definition file_after {A} (flags : list string) (old new : list A) : list A :=
+  if opens_fresh flags then new else new ++ skipn (List.length new) old.
+
+(* 4b. GetRepositoryIndexes: one goroutine per repository; [results] = what each
+   one reads (None: the repository has no index, nothing is stored), [sched] = the
+   order in which they finish.  The code stores at the goroutine's own position and
+   drops the holes afterwards; the alternative appends in arrival order. *)
+Fixpoint upd {A} (i : nat) (v : A) (l : list A) : list A :=
+  match l with
+  | [] => []
+  | x :: t => match i with O => v :: t | S j => x :: upd j v t end
+  end.
+Definition by_position {A} (results : list (option A)) (sched : list nat) : list (option A) :=
+  fold_left (fun l i => match nth_error results i with Some r => upd i r l | None => l end) sched
+            (repeat None (List.length results)).
+Definition drop_holes {A} (l : list (option A)) : list A :=
+  flat_map (fun o => match o with Some v => [v] | None => [] end) l.
+Definition indexes_by_position {A} (results : list (option A)) (sched : list nat) : list A := drop_holes (by_position results sched).
+Definition indexes_by_arrival {A} (results : list (option A)) (sched : list nat) : list A :=
+  flat_map (fun i => match nth_error results i with Some (Some v) => [v] | _ => [] end) sched.
